@@ -91,7 +91,7 @@ func TestVerifBoundedC14(t *testing.T) {
 		maxLen = 10
 	}
 	alpha := []string{"a", ",", "'", "|", "=", "中", "\""}
-	cases := c14Enumerate(alpha, maxLen, func(s string) {
+	splitCase := func(s string) {
 		got := ValidNamesSplit(s)
 		if s == "" {
 			if got != nil {
@@ -115,8 +115,11 @@ func TestVerifBoundedC14(t *testing.T) {
 		if j != s && j+"," != s {
 			report("split.noloss", "pieces of %q joined by commas give %q", s, j)
 		}
-	})
-	fmt.Printf("BOUNDED name=split cases=%d bound=all strings over {a , ' | = 中 \"} up to length %d: ValidNamesSplit against the reference splitter (maximal runs at even quote depth) and the no-loss law\n", cases, maxLen)
+	}
+	cases := c14Enumerate(alpha, maxLen, splitCase)
+	// a second, narrower alphabet with the backslash (a quote is closed by the next quote whatever precedes it), two symbols longer
+	cases += c14Enumerate([]string{"a", ",", "'", "\\"}, maxLen+2, splitCase)
+	fmt.Printf("BOUNDED name=split cases=%d bound=all strings over {a , ' | = 中 \"} up to length %d and over {a , ' \\} up to two more: ValidNamesSplit against the reference splitter (maximal runs at even quote depth) and the no-loss law\n", cases, maxLen)
 
 	// 2. round trip of one rule through GenValidKV and ParseValidNameKV
 	keys := []string{"to", "in", "include", "re", "required", "x"}
